@@ -273,6 +273,9 @@ func (o outcome) String() string {
 
 func (o outcome) Equal(p outcome) bool { return o.String() == p.String() }
 
+// deadlineHit: the request failed because the harness's own request context ended
+func deadlineHit(o outcome) bool { return strings.Contains(o.Err, "context deadline exceeded") }
+
 func outcomeOf(rsp *sdcpb.TransactionSetResponse, err error) outcome {
 	o := outcome{}
 	if err != nil {
@@ -374,6 +377,11 @@ func Exec(c *Case) (nontrivial bool, labels []string, fail *vlib.Failure) {
 			rspS, errS := a.SetRequest(fmt.Sprintf("%s-dry%d", txid, r), reqs(st), nil, true)
 			os := outcomeOf(rspS, errS)
 			a.FreeSlot(fmt.Sprintf("%s-dry%d", txid, r))
+			if deadlineHit(od) || deadlineHit(os) {
+				// the 15 s request context of the harness ran out (race detector, busy machine): inconclusive
+				vlib.GetStats("C17").Discard("request-deadline-hit-under-load")
+				return false, []string{"discard"}, nil
+			}
 			if !od.Equal(os) {
 				return true, keys(lab), vlib.Failf("C17:concurrent-differs-from-sequential:dry-run", "step %d, dry run %d (GOMAXPROCS=%d): concurrent validation: %s\nsequential validation: %s", i+1, r+1, c.Procs, od, os)
 			}
@@ -384,6 +392,10 @@ func Exec(c *Case) (nontrivial bool, labels []string, fail *vlib.Failure) {
 			return true, keys(lab), vlib.Failf("C17:concurrent-validation-does-not-return", "step %d (GOMAXPROCS=%d): the request with concurrent validation has not returned after 90 s; sequential: %s", i+1, c.Procs, outcomeOf(rspA, errA))
 		}
 		oa, ob := outcomeOf(rspA, errA), outcomeOf(rspB, errB)
+		if deadlineHit(oa) || deadlineHit(ob) {
+			vlib.GetStats("C17").Discard("request-deadline-hit-under-load")
+			return false, []string{"discard"}, nil
+		}
 		if !oa.Equal(ob) {
 			return true, keys(lab), vlib.Failf("C17:concurrent-differs-from-sequential", "step %d (GOMAXPROCS=%d): concurrent validation: %s\nsequential validation: %s", i+1, c.Procs, ob, oa)
 		}
